@@ -1,6 +1,7 @@
 import Cpppo.Model.Wire
 import Cpppo.Model.Forwards
-/-! driver: `fwd <op;op;…>` — one answer per op joined by `;`, then `|` and the final table in dict order
+/-! driver: `fwd <op;op;…>` (Connection Manager level) / `fwdwire <op;op;…>` (frames through `logix.process`)
+   — one answer per op joined by `;`, then `|` and the final table in dict order
   o:<host>:<port>:<cid>:<serial>:<p|r>   Forward Open (target PCCC @0xA6/1 | Message Router @2/1)
   c:<host>:<port>:<serial>               Forward Close
   e:<host>:<port>                        the session's connection ended
@@ -9,7 +10,7 @@ import Cpppo.Model.Forwards
 namespace Cpppo.Driver.Forwards
 open Cpppo.Wire Cpppo.Forwards
 
-def commands : List String := ["fwd"]
+def commands : List String := ["fwd", "fwdwire"]
 
 def parseOp (s : String) : Option Op :=
   match s.split (· == ':') |>.toList.map (·.toString) with
@@ -35,6 +36,10 @@ def handle : List String → Option String
   | ["fwd", ops] => do
     let ops ← (splitNonEmpty ops ';').mapM parseOp
     let (t, outs) := run [] ops
+    pure (";".intercalate (outs.map showOut) ++ "|" ++ showTable t)
+  | ["fwdwire", ops] => do
+    let ops ← (splitNonEmpty ops ';').mapM parseOp
+    let (t, outs) := runWire [] ops
     pure (";".intercalate (outs.map showOut) ++ "|" ++ showTable t)
   | _ => none
 
